@@ -117,6 +117,9 @@ Judge(e) ==
       \* behind: each contig must decode exactly as it does alone (decoding has no state that crosses contigs)
       [] e.ev = "Concat"  -> Check(e, "ContigsDecodeIndependently",
                                    (e.a.exc = "" /\ e.b.exc = "") => (e.ab.exc = "" /\ e.ab.ph1 = e.a.ph /\ e.ab.ph2 = e.b.ph))
+      \* the same run under both tags with --distrust-genotypes --include-homozygous: identical genotypes and decoded phase
+      [] e.ev = "Twin"    -> /\ Check(e, "Returns", e.exc = "")
+                             /\ e.exc = "" => Check(e, "TagEquivalenceDistrust", e.a = e.b /\ e.ga = e.gb)
       [] e.ev = "Crashed" -> Fail(e, "Returns")
       [] OTHER            -> Fail(e, "UnknownEvent")
 
